@@ -1276,7 +1276,7 @@ RULES = [
     RuleDef('R6', 'deterministic output', r6, 1),
     RuleDef('R7', 'serialisers do not mutate the regions', r7, 2),
     RuleDef('R9', 'list-level assembly: global/own metadata and frame lines recover every record', r9, 4),
-    RuleDef('R9b', 'list-level assembly on every list of 1..3 records over 3 frames x 6 metadata dictionaries', r9b, 1, tier='thorough'),
+    RuleDef('R9b', 'list-level assembly on every list of 1..3 records over 3 frames x 6 metadata dictionaries', r9b, 1, tier='deep'),
     RuleDef('R11', 'write -> parse of programmatic metadata (tags, label, solid/dashed, width, font, marker size) on probe dictionaries', r11, 8),
     RuleDef('R10', 'visual metadata: parse -> serialise -> parse fixed point on probe metadata', r10, 11),
     RuleDef('R8', 'text and tags: written delimiters are the ones lexed; free text is never coerced; bound to the region', r8, 5),
